@@ -4,6 +4,6 @@ go 1.24.2
 
 require github.com/KevoDB/kevo v0.0.0
 
-require github.com/cespare/xxhash/v2 v2.3.0 // indirect
+require github.com/cespare/xxhash/v2 v2.3.0
 
 replace github.com/KevoDB/kevo => /repo
